@@ -31,6 +31,13 @@ TWO_FAMILY_FACTORIES = {"ipaddress.ip_address", "ipaddress.ip_network", "ipaddre
 TEXTUAL_ATTRS = {"compressed", "exploded", "with_prefixlen"}
 
 
+def enclosing_raise(node) -> bool:
+    q = getattr(node, "_parent", None)
+    while q is not None and not isinstance(q, ast.stmt):
+        q = getattr(q, "_parent", None)
+    return isinstance(q, ast.Raise)
+
+
 def tuple_arity(e):
     """Number of elements of a tuple display (Starred with a constant upper-bounded slice counts its bound); None if unknown."""
     if not isinstance(e, ast.Tuple):
@@ -310,43 +317,61 @@ def run(ctx):
     ctx.rule("R1.5", "generated class: slots, constructor args, init code, unpack code and the field-type table all iterate one ordered "
                      "mapping (declared fields, then reserved fields); Record._pack iterates self.__slots__; the decoder passes values positionally")
     gen = ctx.anchor_func("flow.record.base._generate_record_class")
-    allf = None
-    for st in walk_no_nested(gen):
-        if isinstance(st, ast.Assign) and isinstance(st.targets[0], ast.Name) and isinstance(st.value, ast.Call) and call_name(st.value) in ("OrderedDict", "collections.OrderedDict", "dict") \
-                and any(isinstance(g, ast.comprehension) and dotted(g.iter) == func_params(gen)[1] for g in ast.walk(st.value)):
-            allf = st.targets[0].id
-            allf_stmt = st
-    if allf is None:
+    p_fields5 = func_params(gen)[1]
+    gcfg5 = CFG(gen)
+    upd_all = [c for c in calls_in(gen) if isinstance(c.func, ast.Attribute) and c.func.attr == "update" and isinstance(c.func.value, ast.Name) and c.args
+               and "get_required_fields" in norm(c.args[0])]
+    if len(upd_all) != 1:
         raise AnalysisError("R1.5: the ordered field mapping of _generate_record_class was not found")
+    allf = upd_all[0].func.value.id
+    defs5 = [st for st in walk_no_nested(gen) if isinstance(st, ast.Assign) and any(isinstance(t, ast.Name) and t.id == allf for t in st.targets)]
+    if len(defs5) != 1 or not (isinstance(defs5[0].value, ast.Call) and call_name(defs5[0].value) in ("OrderedDict", "collections.OrderedDict", "dict") or isinstance(defs5[0].value, ast.Dict)):
+        raise AnalysisError("R1.5: the ordered field mapping of _generate_record_class was not found")
+    allf_stmt = defs5[0]
+    by_comp = any(isinstance(g, ast.comprehension) and dotted(g.iter) == p_fields5 for g in ast.walk(allf_stmt.value))
+    empty_ctor = (isinstance(allf_stmt.value, ast.Call) and not allf_stmt.value.args and not allf_stmt.value.keywords) or (isinstance(allf_stmt.value, ast.Dict) and not allf_stmt.value.keys)
+    sub_stores = [n for n in ast.walk(gen) if isinstance(n, ast.Subscript) and isinstance(n.ctx, (ast.Store, ast.Del)) and dotted(n.value) == allf]
+    fill_loops = []
+    stray = []
+    for n in sub_stores:
+        lp = getattr(n, "_parent", None)
+        while lp is not None and not isinstance(lp, ast.For):
+            lp = getattr(lp, "_parent", None)
+        if isinstance(n.ctx, ast.Store) and lp is not None and dotted(lp.iter) == p_fields5 and gcfg5.dominates(gcfg5.node_of(lp).id, gcfg5.node_of(upd_all[0]).id) \
+                and not [x for x in ast.walk(lp) if isinstance(x, (ast.Break, ast.Continue))]:
+            fill_loops.append(lp)
+        else:
+            stray.append(n)
+    declared_first = (by_comp and not sub_stores) or (empty_ctor and len(fill_loops) == 1 and not stray)
     muts = [c for c in calls_in(gen) if isinstance(c.func, ast.Attribute) and dotted(c.func.value) == allf and c.func.attr not in ("keys", "values", "items", "get")]
     upd = [c for c in muts if c.func.attr == "update"]
-    other = [c for c in muts if c.func.attr != "update"]
-    ctx.check(len(upd) == 1 and not other and "get_required_fields" in norm(upd[0].args[0]), "R1.5", "_generate_record_class:field-order",
+    other = [c for c in muts if c.func.attr != "update"] + stray
+    ctx.check(len(upd) == 1 and not other and declared_first and gcfg5.dominates(gcfg5.node_of(allf_stmt).id, gcfg5.node_of(upd[0]).id), "R1.5", "_generate_record_class:field-order",
               f"the field mapping is modified by {[norm(c)[:40] for c in other] or 'no/multiple update()'}: reserved fields are not simply appended once", gen,
               "declared fields, then .update(required fields); no other reordering")
+    # every loop / comprehension over the mapping walks it in mapping order; the raw `fields` parameter is iterated only to
+    # validate names and to fill the mapping
     contributing = 0
     for n in ast.walk(gen):
-        it = None
-        if isinstance(n, ast.For):
+        if isinstance(n, (ast.For, ast.comprehension)):
             it = n.iter
-            contributes = any(isinstance(x, (ast.AugAssign, ast.Assign)) for x in ast.walk(n)) and \
-                any(isinstance(x, ast.Name) and x.id in ("init_code", "unpack_code", "field_types", "args", "_globals") for x in ast.walk(n))
-        elif isinstance(n, ast.comprehension):
-            it = n.iter
-            par = n
-            contributes = dotted(it) is not None and allf in norm(it)
         else:
             continue
-        if not contributes:
-            continue
         txt = norm(it)
-        if allf not in txt and dotted(it) == func_params(gen)[1]:
-            continue  # validation loop over the raw fields
-        contributing += 1
-        ok = txt in (allf, f"{allf}.values()", f"{allf}.keys()", f"{allf}.items()")
-        ctx.check(ok, "R1.5", f"_generate_record_class:loop:{txt[:40]}", f"a template part is generated from `{txt}`, not from the one ordered mapping `{allf}`", n,
-                  f"iterates {txt}")
-    ctx.floor("R1.5", "template-generating loops", contributing, 4)
+        names = {x.id for x in ast.walk(it) if isinstance(x, ast.Name)}
+        if allf in names:
+            contributing += 1
+            ok = txt in (allf, f"{allf}.values()", f"{allf}.keys()", f"{allf}.items()")
+            ctx.check(ok, "R1.5", f"_generate_record_class:loop:{txt[:40]}", f"a template part is generated from `{txt}`, not from the one ordered mapping `{allf}`", n,
+                      f"iterates {txt}")
+        elif p_fields5 in names:
+            is_fill = n in fill_loops or (isinstance(n, ast.comprehension) and any(n is g for g in ast.walk(allf_stmt.value)))
+            validates = isinstance(n, ast.For) and any(isinstance(c, ast.Call) and call_name(c) == "is_valid_field_name" for c in ast.walk(n))
+            writes_text = isinstance(n, ast.For) and any(isinstance(x, ast.AugAssign) or (isinstance(x, ast.Call) and isinstance(x.func, ast.Attribute) and x.func.attr in ("append", "format", "join"))
+                                                         for x in ast.walk(n) if not (isinstance(x, ast.Call) and enclosing_raise(x)))
+            ctx.check((is_fill or validates) and not (writes_text and not is_fill), "R1.5", f"_generate_record_class:loop:{txt[:40]}",
+                      f"a loop over the raw `{p_fields5}` parameter builds part of the class: it does not see the reserved fields / the mapping order", n, "validation / mapping fill only")
+    ctx.floor("R1.5", "loops over the ordered field mapping", contributing, 3)
     slots_kw = [k for c in calls_in(gen) if isinstance(c.func, ast.Attribute) and c.func.attr == "format" for k in c.keywords if k.arg == "slots_tuple"]
     ctx.check(bool(slots_kw) and norm(slots_kw[0].value) in (f"tuple({allf}.keys())", f"tuple({allf})"), "R1.5", "_generate_record_class:slots",
               "__slots__ is not the key order of the field mapping", gen, f"__slots__ = tuple({allf}.keys())")
